@@ -32,7 +32,9 @@ static inline word calculate_hash(word const *rowptr, wi_t wide) {
   return hash;
 }
 
-static inline word rotate_word(word w, int shift) { return (w << shift) | (w >> (m4ri_radix - w)); }
+static inline word rotate_word(word w, int shift) {
+  return shift ? (w << shift) | (w >> (m4ri_radix - shift)) : w;
+}
 
 #if __M4RI_DEBUG_DUMP
 
